@@ -227,8 +227,9 @@ class Evaluator:
             if kind == "module":
                 return ("module", what)
             if kind == "ext":
-                if what in ("struct.calcsize",):
-                    return ("pyfunc", struct.calcsize)
+                if what in ("struct.calcsize", "struct.pack",
+                            "struct.unpack", "struct.unpack_from"):
+                    return ("pyfunc", getattr(struct, what.split(".")[1]))
                 if what == "operator.index":
                     return ("pyfunc", operator.index)
                 return ("ext", what)
@@ -629,6 +630,21 @@ class Evaluator:
             env[target.id] = value
         elif isinstance(target, (ast.Tuple, ast.List)):
             vals = list(value)
+            star = [i for i, t in enumerate(target.elts)
+                    if isinstance(t, ast.Starred)]
+            if star:
+                i = star[0]
+                after = len(target.elts) - i - 1
+                if len(vals) < len(target.elts) - 1:
+                    raise Raised("ValueError: unpack")
+                for t, v in zip(target.elts[:i], vals[:i]):
+                    self.bind(t, v, env)
+                self.bind(target.elts[i].value,
+                          vals[i:len(vals) - after], env)
+                for t, v in zip(target.elts[i + 1:],
+                                vals[len(vals) - after:]):
+                    self.bind(t, v, env)
+                return
             if len(vals) != len(target.elts):
                 raise Raised("ValueError: unpack")
             for t, v in zip(target.elts, vals):
